@@ -207,6 +207,20 @@ func refHeaderValueOK(v string) bool {
 	return true
 }
 
+// management label format of docs/management-model.md: ^[A-Za-z0-9][A-Za-z0-9._:-]{0,127}$
+func refLabelOK(l string) bool {
+	if l == "" || len(l) > 128 {
+		return false
+	}
+	for i, c := range []byte(l) {
+		alnum := c >= '0' && c <= '9' || c >= 'a' && c <= 'z' || c >= 'A' && c <= 'Z'
+		if !alnum && (i == 0 || strings.IndexByte("._:-", c) < 0) {
+			return false
+		}
+	}
+	return true
+}
+
 func refTimeOK(s string) bool {
 	if s == "" {
 		return true
@@ -235,7 +249,12 @@ func itemReasons(p policy, ps pathSpec, it itemSpec, earlier, inQueue map[string
 	}
 	var route string
 	if ps.Global {
-		if it.Application != "" || it.EndpointName != "" {
+		switch {
+		case (it.Application == "") != (it.EndpointName == ""):
+			add("managed-selector-incomplete")
+		case it.Application != "" && !(refLabelOK(it.Application) && refLabelOK(it.EndpointName)):
+			add("managed-selector-label-invalid")
+		case it.Application != "":
 			add("managed-selector-on-global-path")
 		}
 		route = it.Route
@@ -262,6 +281,12 @@ func itemReasons(p policy, ps pathSpec, it itemSpec, earlier, inQueue map[string
 			}
 		}
 	} else {
+		if it.Route != "" && !strings.HasPrefix(it.Route, "/") {
+			add("route-relative")
+		}
+		if (it.Application == "") != (it.EndpointName == "") {
+			add("managed-selector-incomplete")
+		}
 		if it.Route != "" || it.Application != "" || it.EndpointName != "" {
 			add("selector-hint-on-scoped-path")
 		}
@@ -328,7 +353,8 @@ func admissible(n, depth int, dropOldest bool, queued, leased int) bool {
 // ---- alphabet ----------------------------------------------------------------------------------------------
 
 type kind struct {
-	Name   string
+	Name    string
+	Primary string // the reference reason this kind was built to exhibit ("" = acceptable item); used for naming only
 	Core   bool // part of the complete 3-item crossing
 	Small  bool // part of the reduced alphabet
 	MinPos int
@@ -348,6 +374,27 @@ func baseItem(ps pathSpec, pos int) itemSpec {
 	return it
 }
 
+var primaryOf = map[string]string{
+	"empty_id": "id-missing", "blank_id": "id-missing", "missing_id": "id-missing",
+	"no_route": "route-missing", "no_route_with_target": "route-missing", "relative_route": "route-relative",
+	"unknown_route": "route-unknown", "managed_route": "route-managed-on-global-path",
+	"selector_hints": "managed-selector-on-global-path", "selector_hints_with_route": "managed-selector-on-global-path",
+	"selector_application_only": "managed-selector-incomplete", "selector_bad_label": "managed-selector-label-invalid",
+	"target_missing": "target-missing", "target_of_other_route": "target-not-allowed", "target_not_allowed": "target-not-allowed",
+	"publish_off": "route-publish-off", "publish_direct_off": "route-publish-direct-off",
+	"hint_route": "selector-hint-on-scoped-path", "hint_route_other": "selector-hint-on-scoped-path", "hint_route_relative": "route-relative",
+	"hint_selector": "selector-hint-on-scoped-path", "hint_selector_other": "selector-hint-on-scoped-path",
+	"hint_application_only": "managed-selector-incomplete",
+	"bad_base64": "payload-not-base64", "payload_too_large": "payload-too-large",
+	"headers_too_large": "headers-too-large", "headers_too_large_sum": "headers-too-large",
+	"bad_header_name": "header-name-invalid", "bad_header_name_empty": "header-name-invalid", "bad_header_name_colon": "header-name-invalid",
+	"bad_header_name_space": "header-name-invalid", "bad_header_name_nonascii": "header-name-invalid",
+	"bad_header_value": "header-value-invalid", "bad_header_value_nul": "header-value-invalid", "bad_header_value_del": "header-value-invalid",
+	"bad_received_at": "received_at-unparsable", "bad_received_at_date_only": "received_at-unparsable", "bad_next_run_at": "next_run_at-unparsable",
+	"dup_of_first": "id-duplicate-in-batch", "dup_of_previous": "id-duplicate-in-batch",
+	"id_in_queue": "id-already-in-queue", "id_in_queue_newest": "id-already-in-queue",
+}
+
 func kindsFor(ps pathSpec) []kind {
 	second := "pull" // an explicit, allowed target
 	if ps.Global {
@@ -357,7 +404,7 @@ func kindsFor(ps pathSpec) []kind {
 	}
 	var ks []kind
 	add := func(name string, core, small bool, minPos int, mod func(it *itemSpec, prev []itemSpec)) {
-		ks = append(ks, kind{Name: name, Core: core, Small: small, MinPos: minPos, mod: mod})
+		ks = append(ks, kind{Name: name, Primary: primaryOf[name], Core: core, Small: small, MinPos: minPos, mod: mod})
 	}
 	// acceptable items
 	add("valid_min", true, true, 0, func(it *itemSpec, _ []itemSpec) {})
